@@ -62,7 +62,56 @@ def _renamed(j, baseline):
             k = (_module(b["path"]), json.dumps(sig, sort_keys=True))
             if k in gone:
                 out[b["path"]] = gone[k][0]
+    # a renamed *type*: every method of `mod::Old` is gone and `mod::New` has methods of the same names and — up to the
+    # type's own name — the same signatures
+    def norm(sig, tyname):
+        return re.sub(r"\b%s\b" % re.escape(tyname), "\u00a7", json.dumps(sig, sort_keys=True))
+    gone_parents = {}
+    for p, sig in baseline.items():
+        if p not in present and sig and "::" in p and not p.startswith("<"):
+            gone_parents.setdefault(_module(p), {})[p.rsplit("::", 1)[1]] = sig
+    new_parents = {}
+    for b in j["bodies"]:
+        if b.get("def_kind") in ("Fn", "AssocFn") and b["path"] not in baseline and b["path"] not in out and "::" in b["path"] \
+                and not b["path"].startswith("<"):
+            sig = {"inputs": b.get("sig_inputs"), "output": b.get("sig_output"), "is_async": bool(b.get("is_async"))}
+            new_parents.setdefault(_module(b["path"]), {})[b["path"].rsplit("::", 1)[1]] = sig
+    for Q, fq in new_parents.items():
+        for P, fp in gone_parents.items():
+            if P == Q or _module(P) != _module(Q) or not set(fq) <= set(fp):
+                continue
+            # (P must be gone as a whole: no function of the pinned tree under P is still present)
+            if any(_module(x) == P for x in present if x in baseline):
+                continue
+            tp, tq = P.rsplit("::", 1)[-1], Q.rsplit("::", 1)[-1]
+            if all(norm(fq[m], tq) == norm(fp[m], tp) for m in fq):
+                for m in fq:
+                    out["%s::%s" % (Q, m)] = "%s::%s" % (P, m)
+                _renamed.types[Q] = P
     return out
+
+
+_renamed.types = {}
+
+
+def _canonical_names(j, baseline):
+    """Functions and types of the pinned tree that merely got a new name are given their pinned names back (in every path and
+    type string of the facts), so that role tables, pairing tables and tolerated-discard tables keyed by those names keep
+    applying. Reports then name such an item by its pinned name; spans point at the current source."""
+    _renamed.types = {}
+    ren = _renamed(j, baseline)
+    if not ren:
+        return j, {}
+    subs = dict(_renamed.types)
+    for q, p_ in ren.items():
+        if _module(q) not in _renamed.types:
+            subs[q] = p_
+    if not subs:
+        return j, {}
+    txt = json.dumps(j)
+    for q in sorted(subs, key=len, reverse=True):
+        txt = re.sub(r"(?<![\w])%s(?![\w])" % re.escape(q), subs[q].replace("\\", "\\\\"), txt)
+    return json.loads(txt), subs
 
 
 def _callee_path(t):
@@ -294,6 +343,7 @@ def inline_facts(j, baseline=None):
         baseline = load_baseline()
     if baseline is None:
         return j, {"inlined": {}, "note": "no baseline: nothing inlined"}
+    j, canon = _canonical_names(j, baseline)
     cands, graph, has_children = _candidates(j, baseline)
     if not cands:
         if any(b.get("is_async") and b.get("def_kind") in ("Fn", "AssocFn") and b["path"] not in baseline and not b.get("reachable") for b in j["bodies"]):
